@@ -163,6 +163,16 @@ theorem runStep_local : ∀ st : Step, PLocal (runStep st)
     intro rest c s he
     unfold runStep
     exact readInt_then_local 4 (fun n rest s' he' => iter_local (runSteps_local body) (runSteps_adv body) n.toNat rest c s' he') rest s he
+  | .arrB elem body => by
+    intro rest c s he
+    unfold runStep
+    refine readInt_then_local 4 (fun n rest s' he' => ?_) rest s he
+    by_cases hc : n < 0 ∨ n > (s'.sz / elem : Nat)
+    · have hc' : n < 0 ∨ n > ((ext rest s').sz / elem : Nat) := hc
+      rw [if_pos hc', if_pos hc]
+    · have hc' : ¬ (n < 0 ∨ n > ((ext rest s').sz / elem : Nat)) := hc
+      rw [if_neg hc', if_neg hc]
+      exact iter_local (runSteps_local body) (runSteps_adv body) n.toNat rest c s' he'
   | .ifGe v body => by
     intro rest c s he
     unfold runStep
